@@ -14,6 +14,11 @@ CLAIMED["C11"] = dict(
    note="Trusted: Coq kernel + vm_compute; goextract (tables, version constants; the external cupcake table is read from the module cache); extraction + OCaml driver. The theorem about the RDB footer is stated for a fixed parse extent (covered bytes ++ 8 trailer bytes); a substitution that makes the parser stop earlier (a byte turned into the EOF opcode) is only covered by the sweep, where acceptance would need a 2^-64 coincidence. RDB sweeps skip replacement values 0x80/0x81/0xc3 (they make the parser allocate GiB buffers).",
    technique="Coq proof (CRC state-injectivity, induction over bytes) + regenerated tables + differential run with exhaustive substitution sweeps",
    design="DESIGN.md section 5, C11")
+CLAIMED["C10"] = dict(
+   text="Theorems in coq/Props/C10.v (closed, no axioms), over a Gallina model of encoder.go/decoder.go: decode(encode v ++ rest) = (v, rest, offset + |encode v|) for every well-formed value tree at any depth (nil vs empty distinguished, int64 range, arbitrary binary bulks); for ANY input whatsoever a returned value consumed exactly a prefix of the input and the running offset grew by exactly that many bytes (keep-alive newlines and inline lines included); inline lines decode to their space-separated tokens; itos = decimal rendering (table constants regenerated from the source); every strict prefix of an encoding is rejected; missing CR, lengths < -1, non-numeric lengths and unknown type bytes inside arrays are errors. Differential run: Go encoder vs model encoder, Go decoder (through bufio sizes 16..4096 and 1..n-byte readers) vs model decoder on streams of values/inline lines/keep-alives, ALL truncations and single-point corruptions (9 replacement bytes per position) of a set of encodings.",
+   note="Trusted: Coq kernel; Dec.render/parse_int on stdlib Decimal stand for strconv.FormatInt/ParseInt (int64 range check modelled explicitly); bufio.Reader is trusted stdlib; declared lengths above 10^6 are not generated (make() would exhaust memory: abort, not a value). Model tied to the code by the differential run (sampling).",
+   technique="Coq proof (nested induction on value trees / fuel) + differential correspondence run with exhaustive truncations",
+   design="DESIGN.md section 5, C10")
 NOT_YET = {}
 props = [json.loads(l) for l in open(os.path.join(V, "properties.jsonl"))]
 hooks = subprocess.run(["git", "-C", "/repo", "log", "--format=%H %s"], capture_output=True, text=True).stdout.strip().split("\n")
